@@ -263,3 +263,37 @@ func (v *VerifC12Frag) CacheDump() string {
 		return "none"
 	}
 }
+
+// Transfer hands the source fragment over to v the way a cluster resize does: src.WriteTo into a
+// buffer (tar archive: storage, then the cache ids), v.ReadFrom that buffer. When the archive
+// carried a cache entry the receiver has built a new cache (openCache: recount of the transferred
+// ids, then Invalidate on the fresh cache); its outcome is reported as an "r:" event like Reopen.
+func (v *VerifC12Frag) Transfer(src *VerifC12Frag) error {
+	var buf bytes.Buffer
+	if _, err := src.f.WriteTo(&buf); err != nil {
+		return err
+	}
+	if _, err := v.f.ReadFrom(&buf); err != nil {
+		return err
+	}
+	if _, ok := v.f.cache.(*verifC12Cache); !ok {
+		if rc, ok := v.f.cache.(*rankCache); ok {
+			v.events = append(v.events, "r:"+verifC12PairIDs(rc.rankings))
+		}
+		v.instrument()
+	}
+	return nil
+}
+
+// Row returns the columns of a row (fragment.row).
+func (v *VerifC12Frag) Row(row uint64) []uint64 { return v.f.row(row).Columns() }
+
+// BlockChecksums renders fragment.Blocks() as "id:hex id:hex".
+func (v *VerifC12Frag) BlockChecksums() string {
+	bs := v.f.Blocks()
+	ss := make([]string, len(bs))
+	for i, b := range bs {
+		ss[i] = fmt.Sprintf("%d:%x", b.ID, b.Checksum)
+	}
+	return strings.Join(ss, " ")
+}
